@@ -36,6 +36,8 @@ def main():
     os.makedirs(dest, exist_ok=True)
     for src, dst in (('SEED_PATCH.diff', 'patch.diff'), ('SEED_DEMO.py', 'demo.py'),
                      ('SEED_NOTES.md', 'notes.md')):
+        if wt == '-':       # re-check an already filed seed
+            break
         p = os.path.join(wt, src)
         if os.path.exists(p):
             shutil.copy(p, os.path.join(dest, dst))
@@ -45,6 +47,9 @@ def main():
         open(patch, 'w').write(out)
     work = tempfile.mkdtemp(prefix='intake_', dir='/tmp')
     meta = {'seed': name, 'property': prop, 'ran': []}
+    old_meta = {}
+    if os.path.exists(os.path.join(dest, 'meta.json')):
+        old_meta = json.load(open(os.path.join(dest, 'meta.json')))
     try:
         repo = os.path.join(work, 'repo')
         os.makedirs(repo)
@@ -101,6 +106,12 @@ def main():
     meta['needs_to_manifest'] = open(notes).read()[:1500] if os.path.exists(notes) else ''
     meta['confirmed'] = bool(meta.get('demo_without_patch_exit') == 0 and
                              meta.get('demo_with_patch_exit', 0) != 0 and meta.get('suite_ok'))
+    if old_meta.get('checks'):
+        # keep the history: what the checks did before they were strengthened
+        hist = old_meta.get('earlier_results', [])
+        hist.append({cid: {'caught': r['caught'], 'exit': r['exit']}
+                     for cid, r in old_meta['checks'].items()})
+        meta['earlier_results'] = hist
     json.dump(meta, open(os.path.join(dest, 'meta.json'), 'w'), indent=1)
     print(json.dumps({k: meta.get(k) for k in ('seed', 'confirmed', 'demo_without_patch_exit',
                                                 'demo_with_patch_exit', 'suite_ok',
